@@ -104,3 +104,82 @@ Proof.
   destruct (negb (is_char_boundary s ID_PREFIX_LEN)); [split; discriminate|].
   destruct (parse_u32 _); split; discriminate.
 Qed.
+
+(* ---------------- what parsing accepts, exactly ---------------- *)
+
+Definition is_digit (d : N) : Prop := 48 <= d <= 57.
+
+(* the decimal value of a digit string, continuing from acc *)
+Fixpoint dval (l : list N) (acc : N) : N :=
+  match l with [] => acc | d :: t => dval t (acc * 10 + (d - 48)) end.
+
+Lemma dval_ge l : forall acc, acc <= dval l acc.
+Proof. induction l as [|d t IH]; intros acc; cbn [dval]; [lia|]. specialize (IH (acc * 10 + (d - 48))). lia. Qed.
+
+(* u32::from_str on digits: succeeds exactly on digit strings whose value fits, and returns the value *)
+Theorem parse_digits_spec l : forall acc n,
+  parse_digits l acc = Some n <-> Forall is_digit l /\ n = dval l acc /\ (l <> [] -> n <= U32_MAX).
+Proof.
+  induction l as [|d t IH]; intros acc n; cbn [parse_digits dval].
+  - split; [intros [= <-]; split; [constructor|split; [reflexivity|congruence]]|intros (_ & -> & _); reflexivity].
+  - destruct (N.leb_spec 48 d) as [H1|H1]; destruct (N.leb_spec d 57) as [H2|H2]; cbn [andb];
+      try (split; [discriminate|intros (Hf & _); inversion Hf as [|? ? [A B] _]; subst; lia]).
+    destruct (N.ltb_spec U32_MAX (acc * 10)) as [H3|H3].
+    { split; [discriminate|]. intros (_ & -> & Hb). specialize (Hb ltac:(discriminate)).
+      pose proof (dval_ge t (acc * 10 + (d - 48))). lia. }
+    destruct (N.ltb_spec U32_MAX (acc * 10 + (d - 48))) as [H4|H4].
+    { split; [discriminate|]. intros (_ & -> & Hb). specialize (Hb ltac:(discriminate)).
+      pose proof (dval_ge t (acc * 10 + (d - 48))). lia. }
+    rewrite IH. split.
+    + intros (Hf & -> & Hb). split; [constructor; [split; assumption|exact Hf]|]. split; [reflexivity|]. intros _.
+      destruct t as [|d' t']; [cbn [dval]; exact H4|apply Hb; discriminate].
+    + intros (Hf & -> & Hb). inversion Hf as [|? ? _ Hf']; subst. split; [exact Hf'|]. split; [reflexivity|]. intros _. apply Hb. discriminate.
+Qed.
+
+(* TryFrom<&str>: Ok n exactly when the text is at least ID_MIN_LEN bytes, byte 3 is a character
+   boundary, and what follows the prefix is an optional '+' and a non-empty digit string of value
+   n <= u32::MAX; in every other case the result is Err(ParseIntError) *)
+Theorem parse_id_spec s n : parse_id s = Ok n <->
+  ID_MIN_LEN <= Nlen s /\ is_char_boundary s ID_PREFIX_LEN = true /\
+  exists ds, ds <> [] /\ Forall is_digit ds /\ n = dval ds 0 /\ n <= U32_MAX /\
+    (skipn (N.to_nat ID_PREFIX_LEN) s = ds \/ skipn (N.to_nat ID_PREFIX_LEN) s = 43 :: ds).
+Proof.
+  unfold parse_id. destruct (N.ltb_spec (Nlen s) ID_MIN_LEN) as [Hl|Hl]; [split; [discriminate|intros [H _]; lia]|].
+  destruct (is_char_boundary s ID_PREFIX_LEN) eqn:Eb; cbn [negb]; [|split; [discriminate|intros (_ & H & _); discriminate]].
+  set (r := skipn (N.to_nat ID_PREFIX_LEN) s). unfold parse_u32.
+  assert (forall ds, ds <> [] -> (parse_digits ds 0 = Some n <-> Forall is_digit ds /\ n = dval ds 0 /\ n <= U32_MAX)) as K.
+  { intros ds Hne. rewrite parse_digits_spec. split; [intros (A & B & C); auto|intros (A & B & C); auto]. }
+  destruct r as [|c t] eqn:Er.
+  - split; [discriminate|]. intros (_ & _ & ds & Hne & _ & _ & _ & [E|E]); [congruence|discriminate].
+  - destruct (N.eqb_spec c 43) as [->|Hc].
+    + destruct t as [|c' t'].
+      * split; [discriminate|]. intros (_ & _ & ds & Hne & Hf & _ & _ & [E|E]).
+        -- subst ds. inversion Hf as [|? ? [A B] _]; subst. lia.
+        -- injection E as <-. congruence.
+      * destruct (parse_digits (c' :: t') 0) as [m|] eqn:Ep.
+        -- split.
+           ++ intros [= <-]. split; [exact Hl|]. split; [reflexivity|]. exists (c' :: t'). split; [discriminate|].
+              apply (K (c' :: t') ltac:(discriminate)) in Ep as (A & B & C). auto 6.
+           ++ intros (_ & _ & ds & Hne & Hf & Hv & Hb & [E|E]).
+              ** subst ds. inversion Hf as [|? ? [A B] _]; subst. lia.
+              ** injection E as <-. assert (parse_digits (c' :: t') 0 = Some n) as E2 by (apply K; [discriminate|auto]). congruence.
+        -- split; [discriminate|]. intros (_ & _ & ds & Hne & Hf & Hv & Hb & [E|E]).
+           ** subst ds. inversion Hf as [|? ? [A B] _]; subst. lia.
+           ** injection E as <-. assert (parse_digits (c' :: t') 0 = Some n) as E2 by (apply K; [discriminate|auto]). congruence.
+    + assert (match c with 43 => match t with [] => None | _ => parse_digits t 0 end | _ => parse_digits (c :: t) 0 end = parse_digits (c :: t) 0) as ->.
+      { destruct c as [|p]; [reflexivity|]. do 6 (destruct p as [p|p|]; try reflexivity). congruence. }
+      destruct (parse_digits (c :: t) 0) as [m|] eqn:Ep.
+      * split.
+        -- intros [= <-]. split; [exact Hl|]. split; [reflexivity|]. exists (c :: t). split; [discriminate|].
+           apply (K (c :: t) ltac:(discriminate)) in Ep as (A & B & C). auto 6.
+        -- intros (_ & _ & ds & Hne & Hf & Hv & Hb & [E|E]); [|congruence].
+           subst ds. assert (parse_digits (c :: t) 0 = Some n) as E2 by (apply K; [discriminate|auto]). congruence.
+      * split; [discriminate|]. intros (_ & _ & ds & Hne & Hf & Hv & Hb & [E|E]); [|congruence].
+        subst ds. assert (parse_digits (c :: t) 0 = Some n) as E2 by (apply K; [discriminate|auto]). congruence.
+Qed.
+
+Theorem parse_id_error_kind s : (exists n, parse_id s = Ok n) \/ parse_id s = Err ParseIntError.
+Proof.
+  unfold parse_id. destruct (Nlen s <? ID_MIN_LEN); [right; reflexivity|]. destruct (negb _); [right; reflexivity|].
+  destruct (parse_u32 _); [left; eauto|right; reflexivity].
+Qed.
